@@ -48,6 +48,9 @@ MUST_HAVE = [
     "pbf kind=ways info=min", "pbf kind=rels info=all", "pbf st=rev", "pbf st=dup", "pbf several groups in a block", "pbf blocks=3+",
     "pbf blk unk=True", "pbf hdr unk=True", "pbf grp unk=True", "pbf blk order=rev", "pbf grp order=rev", "pbf blk rsfirst=False",
     "pbf blk emptygroup=True", "pbf hdr bbox=True", "pbf grp lenpad=True",
+    "pbf way locations", "pbf way locations gran=1", "pbf way locations gran=100", "pbf way locations gran=1000",
+    "pbf way locations lat_offset or lon_offset != 0", "pbf way locations both offsets != 0 and granularity not a multiple of 100",
+    "pbf way locations of 3+ nodes", "pbf way without locations after a way with locations",
     "xml root=osm", "xml root=osmChange", "xml section=create", "xml section=modify", "xml section=delete", "xml empty section",
     "xml kids=tags_first", "xml attrs=rev", "xml quote=sq", "xml esc=over", "xml esc=hex", "xml esc=dec", "xml ws=crlf", "xml ws=none",
     "xml selfclose=False", "xml decl=bom", "xml decl=none", "xml comments=True", "xml unkel=True", "xml bounds=bounds", "xml bounds=bound",
@@ -115,6 +118,7 @@ def export(ctx):
         ("PbfChoices", "GenPbf.cfg", n(130, 1000), 300, "pbf simulated choice vectors"),
         ("PbfChoices", "GenPbfX.cfg", n(25, 200), 300, "pbf unpacked/split repeated fields, unknown blob types"),
         ("PbfChoices", "GenPbfBig.cfg", 15, 300, "pbf blobs of 16 MiB and 32 MiB - 1"),
+        ("PbfChoices", "GenPbfWayLoc.cfg", n(40, 300), 300, "pbf ways that carry node locations (Way.lat / Way.lon) under every block parameter"),
         ("XmlChoices", "GenXml.cfg", n(80, 400), 200, "xml simulated choice vectors"),
         ("XmlChoices", "GenXmlHist.cfg", n(40, 300), 200, "xml deleted objects: sections versus visible attribute"),
         ("XmlChoices", "GenXmlX.cfg", n(12, 100), 200, "xml interleaved children"),
@@ -180,6 +184,13 @@ def select(ctx, pool):
         chosen.add(i)
         per[src] = per.get(src, 0) + 1
     ctx.extra["features_covered"] = len(allf)
+    wl = "pbf way locations"
+    ctx.extra["pbf_way_location_cases"] = {
+        "exported": sum(1 for f in feats if wl in f),
+        "exported_with_offsets": sum(1 for f in feats if wl + " lat_offset or lon_offset != 0" in f),
+        "exported_with_offsets_and_odd_granularity": sum(1 for f in feats if wl + " both offsets != 0 and granularity not a multiple of 100" in f),
+        "replayed_with_offsets": sum(1 for i in chosen if wl + " lat_offset or lon_offset != 0" in feats[i]),
+        "replayed_with_offsets_and_odd_granularity": sum(1 for i in chosen if wl + " both offsets != 0 and granularity not a multiple of 100" in feats[i])}
     ctx.extra["choice_vectors_exported"] = len(pool)
     ctx.extra["choice_vectors_replayed_per_source"] = per
     return [pool[i] for i in sorted(chosen)], allf
@@ -254,6 +265,8 @@ def outcome(r):
         return "threw " + m[:110]
     if isinstance(r.get("exp"), dict) and isinstance(r.get("got"), dict):
         diff = sorted(k for k in r["exp"] if r["exp"].get(k) != r["got"].get(k))
+        if "refs" in diff and "locs" in diff:      # the location list runs parallel to the reference list: wrong references
+            diff.remove("locs")                    # are named as such (signatures of the recorded findings stay what they were)
         return "object differs in " + ",".join(diff)
     return re.sub(r"\d+", "#", note)[:80]
 
@@ -369,6 +382,9 @@ def run(ctx):
         "consistently by the format's implementations); uid 0 with a non-empty user name is outside the domain",
         "trusted base: tools/enc_*.py (independent encoders written from the format descriptions, python standard library only)",
         "PBF coordinates / timestamps are restricted to values the chosen granularity represents exactly",
+        "node locations of ways (PBF Way.lat / Way.lon) are part of the data model for the data set 'wayloc', which only the "
+        "PBF module and encoder carry; for every way of every format the location of each way node is compared (undefined "
+        "where the way has none)",
     ]
 
 
